@@ -189,6 +189,13 @@ def check_complement(spec, ctx):
     rc = str(seq.reverse_complement())
     a_c = "T"
     ctx.eq("reverse_complement_api", rc, exp + a_c + exp)
+    # complementing the RESULT OBJECT again goes through the table again (it is not "undo": U -> A -> T, not back to U), and equals
+    # what a freshly built sequence of the same characters gives
+    rc_obj = seq.reverse_complement()
+    twice = str(rc_obj.reverse_complement())
+    exp2 = "".join(table[c_] for c_ in reversed(rc))
+    ctx.eq("reverse_complement_of_the_result_object", twice, exp2, extra=ch)
+    ctx.eq("reverse_complement_of_a_fresh_equal_sequence", str(Sequence(rc, alpha).reverse_complement()), exp2, extra=ch)
     # every key in the table belongs to the alphabet
     for k in table:
         ctx.true("table_key_in_alphabet", k.upper() in alpha.value, k)
